@@ -161,7 +161,7 @@ def rsi_series(xs, alpha):
     ups, downs, prev = [], [], None
     for x in xs:
         if prev is None:
-            ups.append(F(1, 10)); downs.append(F(1, 10))
+            ups.append(F(0.1)); downs.append(F(0.1))      # the f64 nearest to 0.1
         else:
             ups.append(ite(x > prev, x - prev, F(0)))
             downs.append(ite(x > prev, F(0), prev - x))
@@ -240,5 +240,5 @@ def cci_series(bars, n):
     out = []
     for i in range(len(bars)):
         w = window(tps, i, n)
-        out.append((tps[i] - mean(w), F(15, 1000) * mad(w), mad(w)))
+        out.append((tps[i] - mean(w), F(0.015) * mad(w), mad(w)))     # the f64 nearest to 0.015
     return out
